@@ -25,6 +25,8 @@ package centrifuge
 // Events (T = ms since the scenario's second-aligned base time, non-decreasing):
 //   new                      NewClient
 //   connect:EXP              connect command; credentials ExpireAt = now+EXP s (0: none)
+//   connectfail              connect command that fails AFTER authentication (a connect-time server-side
+//                            subscription with an expired ExpireAt): error reply, connection marked unusable
 //   pong                     empty command (pong)
 //   refresh:V                client refresh command, handler answers ExpireAt = now+V s | 0 | x
 //   srefresh:V               Client.Refresh(WithRefreshExpireAt(now+V)) | ExpireAt 0 | x = WithRefreshExpired
@@ -342,12 +344,19 @@ func verifC36Scenario(line string) (res string) {
 	rhr := verifC36Script0(kv["rhr"])
 	srhr := verifC36Script0(kv["srhr"])
 	var connectExp int64
+	var connectFail bool
 	var subExp int64
 	var subCSR bool
 	// och=0: no ConnectingHandler at all, credentials come from the context (authenticating middleware)
 	if kv["och"] != "0" {
 		node.OnConnecting(func(ctx context.Context, e ConnectEvent) (ConnectReply, error) {
-			return ConnectReply{Credentials: &Credentials{UserID: "u", ExpireAt: connectExp}, ClientSideRefresh: csr}, nil
+			rep := ConnectReply{Credentials: &Credentials{UserID: "u", ExpireAt: connectExp}, ClientSideRefresh: csr}
+			if connectFail {
+				// the connect fails AFTER authentication: a connect-time server-side subscription whose
+				// expiration lies in the past is refused with ErrorExpired
+				rep.Subscriptions = map[string]SubscribeOptions{"srv": {ExpireAt: time.Now().Unix() - 10}}
+			}
+			return rep, nil
 		})
 	}
 	node.OnConnect(func(c *Client) {
@@ -538,6 +547,18 @@ func verifC36Scenario(line string) (res string) {
 				return "harness-error new-client"
 			}
 			client = c
+		case "connectfail":
+			if client == nil || kv["och"] == "0" {
+				return "bad-op"
+			}
+			connectExp, connectFail = 0, true
+			cmdID++
+			if tr.uni {
+				client.Connect(ConnectRequest{})
+			} else {
+				client.HandleCommand(&protocol.Command{Id: cmdID, Connect: &protocol.ConnectRequest{}}, 0)
+			}
+			connectFail = false
 		case "connect":
 			if client == nil {
 				return "bad-op"
